@@ -9,7 +9,20 @@
    rows), L (= inspect.findsource), [P] (= untokenize + ast.parse + first Lambda of an extent's
    tokens; every theorem is quantified over all P), [dsrc] (statement kinds of a def body).
    Outcomes: [Found s k] = the lambda whose `lambda` token is token k of stream s; [FoundDef];
-   [Err _] = ValueError; [Crash _] = another exception; [NeedStream] = input too short. *)
+   [Err _] = ValueError; [Crash _] = another exception; [NeedStream] = input too short.
+
+   OPEN FINDING NOT COVERED BY THE SAFETY THEOREM (KNOWN_FINDINGS.txt `open: property=C03`, harness
+   c03.KNOWN_OPEN).  [finder_never_picks_neighbour] assumes [lambda_atb P toks k0 L caller args]; its
+   conjunct [called_byb toks k0 caller] says that the identifier find_identifier returns with the passed
+   lambda ([key_before toks k0]) is the caller.  That holds when the lambda is written directly as the
+   operator's argument (by position or by keyword).  It FAILS when the passed lambda is the second branch
+   of a conditional expression (`ds.Select((lambda x: ..) if flag else (lambda x: ..))`: key `else`) or the
+   argument of a pass-through helper (`ds.Select(keep(lambda x: ..))`: key `keep`): the passed lambda is
+   then not a candidate of the caller at all, and if another lambda of the logical line is filed under the
+   caller with the same parameter names, that one is the unique candidate and is returned.  The other
+   hypotheses (rows, row L, parse of the extent, not nested) hold on these witnesses; the model reproduces
+   the defect: [passed_lambda_not_direct_argument_open_refuted] below.  (With different
+   parameter names, or no same-method neighbour, the outcome is Err - allowed.) *)
 From Coq Require Import List String ZArith Bool Arith.
 From FA.Model Require Import LambdaFinder LambdaFinderSpec.
 From FA.Proofs Require Import LambdaFinderProofs LambdaFinderLayouts LambdaFinderWitness.
@@ -301,6 +314,26 @@ Example keyword_lambda_filed_under_keyword_pinned_refuted :
     lambda_atb P toks k0 L caller args = true /\ not_nestedb toks k0 = true /\ k <> k0.
 Proof. exact kwname_refuted. Qed.
 Print Assumptions keyword_lambda_filed_under_keyword_pinned_refuted.
+
+(* OPEN FINDING: THE CURRENT SELECTION (all fixes) RETURNS THE NEIGHBOUR when the passed lambda is not
+   written directly as the operator's argument.  Token stream (from row 2) of
+       flag = False
+       r = ds.Select((lambda x: x + 1) if flag else (lambda x: x + 2))
+   the passed lambda is token 18 (`lambda` on row L = 2, its extent parsed to the parameters [x], not
+   inside another lambda's extent); [find] returns token 7, the first branch.  Exactly one hypothesis of
+   finder_never_picks_neighbour fails: [called_byb] inside [lambda_atb] - key_before = Some "else". *)
+Example passed_lambda_not_direct_argument_open_refuted :
+  exists P streams L dsrc caller args s k toks k0 t0,
+    find P streams L true dsrc (Some caller) args = Found s k /\
+    nth_error streams s = Some toks /\ rows_okb toks = true /\
+    nth_error toks k0 = Some t0 /\ is_name "lambda" t0 = true /\ trow t0 = L /\
+    P (extent toks k0 (ext_stop toks k0)) = PArgs args /\
+    not_nestedb toks k0 = true /\
+    key_before toks k0 = Some "else" /\ called_byb toks k0 caller = false /\
+    lambda_atb P toks k0 L caller args = false /\
+    k <> k0.
+Proof. exact condarg_open_refuted. Qed.
+Print Assumptions passed_lambda_not_direct_argument_open_refuted.
 
 (* ---- non-vacuity: documented layouts meet the hypotheses and are found ---- *)
 (* black-style chain, the .Where line (with a trailing comment holding `lambda e: (`) *)
